@@ -267,6 +267,10 @@ def install():
             if k in d:
                 _saved.append((d, k, d[k]))
                 d[k] = v
+    from . import timestub
+    cds = sys.modules.get("spacepackets.ccsds.time.cds")
+    if cds is not None:
+        timestub.install_into(cds.__dict__, _saved, _MISSING)
     _installed = True
 
 
